@@ -24,6 +24,7 @@ pub uninterp spec fn leaf_safe(e: Expression) -> bool;
 #[cfg(feature = "luau")] pub uninterp spec fn ta_safe(t: full_moon::ast::luau::TypeAssertion) -> bool;
 
 pub uninterp spec fn other_closed<T>(x: T) -> bool;   // no line comment behind the last token, for node types this file does not model
+pub uninterp spec fn other_line_open<T>(x: T) -> bool;
 pub uninterp spec fn other_nl<T>(x: T) -> bool;     // first token on a new line, for node types this file does not model
 
 // trivia lists the formatter builds
